@@ -54,7 +54,7 @@ type CaseA struct {
 	Prefer512   bool   `json:"prefer512"`
 	Tag         bool   `json:"tag"`    // the reference carries a tag
 	Inline      string `json:"inline"` // desc-data: ok | corrupt
-	Repush      string `json:"repush"` // none | reg-tag | reg-digest | reg-digest-otheralg | layout-tag | layout-digest | layout-digest-otheralg
+	Repush      string `json:"repush"` // none | reg-tag | reg-digest | reg-digest-otheralg | layout-tag | layout-digest | layout-digest-otheralg | layout-digest-wrong
 	RequireDig  bool   `json:"require_digest"`
 
 	// dimensions added by the generator-domain audit
@@ -105,7 +105,7 @@ func genA(t *rapid.T) CaseA {
 	c.Prefer512 = rapid.IntRange(0, 4).Draw(t, "prefer512") == 0
 	c.Tag = rapid.Bool().Draw(t, "tag")
 	c.Inline = rapid.SampledFrom([]string{"ok", "ok", "corrupt"}).Draw(t, "inline")
-	c.Repush = rapid.SampledFrom([]string{"none", "reg-tag", "reg-tag", "reg-digest", "layout-tag", "layout-digest", "reg-digest-otheralg", "layout-digest-otheralg"}).Draw(t, "repush")
+	c.Repush = rapid.SampledFrom([]string{"none", "reg-tag", "reg-tag", "reg-digest", "layout-tag", "layout-digest", "reg-digest-otheralg", "layout-digest-otheralg", "layout-digest-wrong"}).Draw(t, "repush")
 	c.RequireDig = rapid.Bool().Draw(t, "require_digest")
 	c.Cache = rapid.Bool().Draw(t, "cache")
 	c.DefaultTag = rapid.IntRange(0, 3).Draw(t, "default_tag") == 3
@@ -794,8 +794,8 @@ func editManifest(m manifest.Manifest, before snap) bool {
 		}
 	} else if before.MT == mtDocker1 {
 		var mm map[string]json.RawMessage
-		if json.Unmarshal(before.Raw, &mm) != nil {
-			return false
+		if json.Unmarshal(before.Raw, &mm) != nil || mm == nil {
+			return false // (a body such as "null" decodes to no object)
 		}
 		mm["tag"] = json.RawMessage(`"c02-audit-edited"`)
 		doc, err := json.Marshal(mm)
@@ -1063,7 +1063,7 @@ func (c *CaseA) repush(f fetched, m manifest.Manifest, s snap, tag string, tmp f
 				}
 			}
 		}
-	case "layout-tag", "layout-digest", "layout-digest-otheralg":
+	case "layout-tag", "layout-digest", "layout-digest-otheralg", "layout-digest-wrong":
 		dir := tmp()
 		rc := f.rc
 		if rc == nil {
@@ -1076,14 +1076,23 @@ func (c *CaseA) repush(f fetched, m manifest.Manifest, s snap, tag string, tmp f
 		if c.DefaultTag && c.Repush == "layout-tag" {
 			r, _ = mkRefT("ocidir://"+dir, true, "", true)
 		}
-		if c.Repush == "layout-digest-otheralg" {
+		if c.Repush == "layout-digest-otheralg" || c.Repush == "layout-digest-wrong" {
 			if otherDig == "" {
 				return nil
 			}
+			lbl := "otheralg"
 			r = r.SetDigest(otherDig)
+			if c.Repush == "layout-digest-wrong" {
+				// a digest that does not name the bytes: the push may fail, it must not store a lie
+				lbl = "wrongdigest"
+				r = r.SetDigest(hashOf(alg, append(append([]byte{}, s.Raw...), ' ')))
+			}
 			if err := rc.ManifestPut(ctx, r, m); err != nil {
-				ev.Class("repush:layout-otheralg:error")
+				ev.Class("repush:layout-" + lbl + ":error")
 				return nil
+			}
+			if lbl == "wrongdigest" {
+				ev.Class("repush:layout-wrongdigest:accepted") // judged by what was stored, below
 			}
 			// every blob file holds the bytes its name hashes to, and the manifest's bytes are among them
 			found := false
@@ -1116,9 +1125,9 @@ func (c *CaseA) repush(f fetched, m manifest.Manifest, s snap, tag string, tmp f
 			}
 			// observation only: can the manifest be read back under the name it was pushed to?
 			if m3, err := rc.ManifestGet(ctx, r); err == nil && m3.IsSet() {
-				ev.Class("repush:layout-otheralg:ok-readable")
+				ev.Class("repush:layout-" + lbl + ":ok-readable")
 			} else {
-				ev.Class("repush:layout-otheralg:ok-not-readable-under-pushed-digest")
+				ev.Class("repush:layout-" + lbl + ":ok-not-readable-under-pushed-digest")
 			}
 			return vs
 		}
